@@ -29,9 +29,11 @@ fn check_nevra(n: &str, e: &str, v: &str, r: &str, a: &str, prio: u64, acc: &mut
         let norm = val.as_normalized_form();
         // the same value built from owned strings must format identically
         let owned = Nevra::new(n.to_string(), e.to_string(), v.to_string(), r.to_string(), a.to_string());
-        if owned.to_string() != text || owned.as_normalized_form() != norm || owned.nvra() != val.nvra() || owned != val {
-            panic!("a NEVRA built from owned strings formats differently from the same NEVRA built from borrowed ones: {:?} / {:?} vs {:?} / {:?}", owned.to_string(), owned.as_normalized_form(), text, norm);
-        }
+        let owned_differs = if owned.to_string() != text || owned.as_normalized_form() != norm || owned.nvra() != val.nvra() || owned != val {
+            Some(format!("built from owned strings it formats as {:?} / {:?}, built from borrowed ones as {:?} / {:?}", owned.to_string(), owned.as_normalized_form(), text, norm))
+        } else {
+            None
+        };
         let nvra = val.nvra();
         let back = Nevra::parse(&text);
         let back_vals = (back.name().to_string(), back.epoch().to_string(), back.version().to_string(), back.release().to_string(), back.arch().to_string());
@@ -41,12 +43,15 @@ fn check_nevra(n: &str, e: &str, v: &str, r: &str, a: &str, prio: u64, acc: &mut
         let nb_vals = (nb.name().to_string(), nb.epoch().to_string(), nb.version().to_string(), nb.release().to_string(), nb.arch().to_string());
         let pv = Nevra::parse_values(&text);
         let pv = (pv.0.to_string(), pv.1.to_string(), pv.2.to_string(), pv.3.to_string(), pv.4.to_string());
-        (text, norm, nvra, back_vals, eq, nb_vals, pv)
+        (text, norm, nvra, back_vals, eq, nb_vals, pv, owned_differs)
     });
-    let (text, norm, nvra, back, eq, nb, pv) = match res {
+    let (text, norm, nvra, back, eq, nb, pv, owned_differs) = match res {
         Ok(x) => x,
         Err(p) => return acc.viol(panic_violation("nevra", &p, case())),
     };
+    if let Some(d) = owned_differs {
+        acc.viol(Violation::new("nevra", format!("the textual form depends on whether the components are owned or borrowed strings: {}", d), case()).sig("clause", "owned-vs-borrowed"));
+    }
     let dash = if n.contains('-') { "yes" } else { "no" };
     let want = (n.to_string(), e.to_string(), v.to_string(), r.to_string(), a.to_string());
     if back != want || !eq || pv != want {
@@ -80,21 +85,26 @@ fn check_evr(e: &str, v: &str, r: &str, prio: u64, acc: &mut Acc) {
         let text = val.to_string();
         let norm = val.as_normalized_form();
         let owned = Evr::new(e.to_string(), v.to_string(), r.to_string());
-        if owned.to_string() != text || owned.as_normalized_form() != norm || owned != val {
-            panic!("an EVR built from owned strings formats differently from the same EVR built from borrowed ones: {:?} / {:?} vs {:?} / {:?}", owned.to_string(), owned.as_normalized_form(), text, norm);
-        }
+        let owned_differs = if owned.to_string() != text || owned.as_normalized_form() != norm || owned != val {
+            Some(format!("built from owned strings it formats as {:?} / {:?}, built from borrowed ones as {:?} / {:?}", owned.to_string(), owned.as_normalized_form(), text, norm))
+        } else {
+            None
+        };
         let back = Evr::parse(&text);
         let bv = (back.epoch().to_string(), back.version().to_string(), back.release().to_string());
         let nb = Evr::parse(&norm);
         let e_ = std::cmp::Ordering::Equal;
         let eq = back == val && back.cmp(&val) == e_ && val.cmp(&back) == e_ && nb == val && nb.cmp(&val) == e_ && val.cmp(&nb) == e_;
         let nbv = (nb.epoch().to_string(), nb.version().to_string(), nb.release().to_string());
-        (text, norm, bv, eq, nbv)
+        (text, norm, bv, eq, nbv, owned_differs)
     });
-    let (text, norm, bv, eq, nbv) = match res {
+    let (text, norm, bv, eq, nbv, owned_differs) = match res {
         Ok(x) => x,
         Err(p) => return acc.viol(panic_violation("evr", &p, case())),
     };
+    if let Some(d) = owned_differs {
+        acc.viol(Violation::new("evr", format!("the textual form depends on whether the components are owned or borrowed strings: {}", d), case()).sig("clause", "owned-vs-borrowed"));
+    }
     let want = (e.to_string(), v.to_string(), r.to_string());
     if bv != want || !eq {
         acc.viol(Violation::new("evr", format!("{:?} formats as {:?} and parses back as {:?}", want, text, bv), case()).sig("clause", "evr-roundtrip"));
